@@ -260,7 +260,7 @@ def run(tier, seed):
     for n, reps in plan:
         for _ in range(reps):
             Fc, klass, fam = gen_F(rng, n)
-            tol = float(rng.choice([1e-6, 1e-6, 1e-4, 1e-9, 1e-12]))
+            tol = float(rng.choice([1e-6, 1e-6, 1e-4, 1e-9, 1e-12, 1e-2, 5e-2, 1e-3]))       # every legal tol: tight, default, loose
             vecs, complete = P.seed_vectors(rng, n, exh, nsample)
             ctx.count("seed-enumeration-complete" if complete else "seed-enumeration-sampled")
             for sv in vecs:
